@@ -212,7 +212,6 @@ UNITS["membership"] = {
     "crate": "harness/membership",
     "harness_mod": "watch::verif_contracts",
     "kani_flags": [],
-    "env": {"VCOLL_CAP": "3", "VCOLL_VCAP": "3"},
     "sources": ["datacake-node/src/lib.rs", "datacake-node/src/node.rs"],
     "slice": [
         {"mode": "items", "src": "datacake-node/src/node.rs", "out": "node_types.rs",
@@ -228,7 +227,8 @@ UNITS["membership"] = {
     "functions": ["watch_membership_changes"],
     "assumptions": [
         "snapshot stream, latest-value delta channel, RpcNetwork, NodeSelectorHandle, statistics are recording stand-ins; tracing macros are no-ops",
-        "BTreeSet<(NodeId, SocketAddr)> keys are identified by (id, IPv4, port) packed in 56 bits (vcoll::VKey)",
+        "this unit links the REAL std BTreeMap/BTreeSet/Vec/String: every harness fixes presence and addresses concretely, so CBMC executes the std code by constant propagation "
+        "(with the vcoll stand-ins the composite function exceeded 24 GB); the price is that each harness is one concrete presence/address transition (81 of them), only data centres are symbolic",
     ],
     "timeout_quick": 1200,
 }
@@ -268,6 +268,10 @@ import copy
 UNITS["group_caller"] = copy.deepcopy(UNITS["group"])
 UNITS["group_caller"]["harness_mod"] = "group_caller::verif_contracts"
 UNITS["group_caller"]["gen_unit"] = "group"
+UNITS["group_caller"]["env"] = {"VCOLL_CAP": "3", "VCOLL_VCAP": "3"}
+UNITS["group_caller"]["assumptions"] = UNITS["group"]["assumptions"] + [
+    "the caller unit links the REAL std BTreeMap/Vec/String: keyspace names (the only map keys) and all counts are concrete per harness, row contents symbolic; "
+    "load_states is a contract stub recording what it is handed (its body: gr_load_states)"]
 UNITS["group_caller"]["functions"] = ["KeyspaceGroup::load_states_from_storage"]
 
 UNITS["orswot_b"] = copy.deepcopy(UNITS["orswot"])
@@ -401,34 +405,30 @@ _k("ac_on_multi_set", "actor", "B", "KeyspaceActor::on_multi_set",
 _k("ac_on_multi_del", "actor", "B", "KeyspaceActor::on_multi_del", "same contract for bulk deletes", bound="batch <= 2, distinct ids", tier="thorough")
 _k("ac_on_purge", "actor", "B", "KeyspaceActor::on_purge_tombstones",
    "<= 2 tombstones: a tombstone leaves the set iff it left storage (failed removals re-added); only tombstones older than the cut-off; live documents untouched",
-   bound="|dead| <= 2", tier="thorough")
+   bound="|dead| <= 2")
 
 # ---- unit group
 _GL = ("every stored row is replayed exactly once, in timestamp order, through source 0 into the set handed (via load_states) to that keyspace, and nothing else is "
        "(any order, any tombstone flags, stamps may coincide); a failed read hands over nothing")
-_k("gr_load_rows", "group_caller", "B", "KeyspaceGroup::load_states_from_storage (callee load_states by contract)", "1 keyspace x <= 2 rows: " + _GL, bound="1 keyspace x 2 rows")
-_k("gr_load_keyspaces", "group_caller", "B", "KeyspaceGroup::load_states_from_storage (callee load_states by contract)", "<= 2 keyspaces x <= 1 row: " + _GL, bound="2 keyspaces x 1 row")
+for _n, _b, _t in (("gr_load_1x2", "1 keyspace x 2 rows", "quick"), ("gr_load_2x1", "2 keyspaces x 1 row", "quick"), ("gr_load_2x2", "2 keyspaces x 2 rows", "thorough"),
+                   ("gr_load_1x1", "1 keyspace x 1 row", "thorough"), ("gr_load_0", "no keyspace", "thorough"),
+                   ("gr_load_fail_list", "2 keyspaces, keyspace listing fails", "quick"), ("gr_load_fail_rows", "2 keyspaces, reading the last one fails", "quick")):
+    _k(_n, "group_caller", "B", "KeyspaceGroup::load_states_from_storage (callee load_states by contract)", _b + " (counts concrete, row contents symbolic): " + _GL,
+       bound=_b, tier=_t)
 _k("gr_load_states", "group", "B", "KeyspaceGroup::load_states",
    "<= 2 (name, state) pairs: exactly one actor spawned per pair with exactly that state; name bound to that actor's mailbox and to a change counter", bound="<= 2 states")
 _k("gr_binding_preserved", "group", "P", "KeyspaceGroup::get_or_create_keyspace / add_state",
    "arbitrary group map, environment steps at both former await points: result == map'[name]; a binding once set (before the call or by another task in the window) is never replaced")
 
 # ---- unit membership
-_k("mb_delta_step", "membership", "B", "watch_membership_changes",
-   "two consecutive snapshots over ids {self,1,2} (first arbitrary => inductive step), 2 addresses, 2 DCs: joined/left exact (left as members of the PREVIOUS "
-   "snapshot with the address they had); consumer fold == others(cur); departed addresses disconnected; set_nodes gets exactly cur's DC layout",
-   bound="2 snapshots x 3 ids x 2 addresses x 2 DCs")
-
-# ---- unit clock
-_k("ck_two_events", "clock", "P", "run_clock",
-   "arbitrary clock state, any two events, arbitrary wall reading per event: Get replies are strictly increasing in channel order, carry the node id, and a Get after an "
-   "accepted Register(remote) is > remote")
-_k("ck_get_time", "clock", "P", "Clock::get_time", "sends exactly one Get event and returns the reply delivered on its own oneshot")
-_k("ck_register", "clock", "P", "Clock::register_ts", "own stamps ignored; otherwise exactly one Register event carrying the stamp")
-
-_k("os_merge_kernel", "orswot_b", "B", "OrSWotSet::merge / NodeVersions::merge",
-   "S and O concrete with at most one key each (live or tombstone, same or different key, symbolic stamps, one origin each): slot'(k) == k_merge(slot_S, slot_O, "
-   "before-flags); live/dead disjoint", bound="<= 1 key per side", tier="thorough")
+_MB = ("two consecutive snapshots over ids {self,1,2}; each other node is absent / at address A / at address B in each snapshot (concrete per harness: all 81 "
+       "transitions are registered), data centres symbolic: joined/left exact (left as members of the PREVIOUS snapshot with the address they had); consumer fold == "
+       "others(cur); departed addresses disconnected; set_nodes gets exactly cur's DC layout")
+_MB_ALL = [f"mb_delta_{p1}{p2}_{c1}{c2}" for p1 in range(3) for p2 in range(3) for c1 in range(3) for c2 in range(3)]
+_MB_QUICK = {"mb_delta_10_00", "mb_delta_00_10", "mb_delta_10_20", "mb_delta_12_21", "mb_delta_11_01", "mb_delta_01_11", "mb_delta_10_01", "mb_delta_11_11"}
+for _n in _MB_ALL:
+    _k(_n, "membership", "B", "watch_membership_changes", f"transition {_n[9:]}: " + _MB,
+       bound="3 ids x {absent, addr A, addr B} x 2 DCs, one transition per harness", tier="quick" if _n in _MB_QUICK else "thorough")
 
 # ---- Verus lemma layer (each file = shared exec kernels proved equal to spec kernels + lemmas)
 _v("lemmas_lww", "lemmas/lww.rs", "kernels k_insert/k_delete/k_cut/k_before/k_will_apply/k_lacks/k_max_stamp/k_safe; lemma layer",
@@ -479,20 +479,6 @@ PROPERTIES = {
         "obligations": ["ac_on_set", "ac_on_del", "ac_on_multi_set", "ac_on_multi_del", "ac_on_purge",
                         "os_will_apply", "os_insert_contract", "os_delete_contract", "os_purge_all", "os_raw_tombstones"],
         "level": "proof", "explanation": "", "assumptions": [],
-    },
-    "C07": {
-        "obligations": ["gr_load_rows", "gr_load_keyspaces", "gr_load_states", "lemmas_restart", "os_insert_contract", "os_delete_contract", "ac_on_set", "ac_on_del"],
-        "level": "proof", "explanation": "", "assumptions": [
-            "'converges with its peers as in C01' is not decided (C01 is not applicable)",
-            "crash points: the rebuilt state is a function of storage only (gr_load_all), so the in-memory state at the crash is irrelevant; "
-            "'acknowledged => in storage' is the Ok branch of ac_on_set/ac_on_del (storage written before the reply)"],
-    },
-    "C16": {
-        "obligations": ["mb_delta_step", "lemmas_membership"],
-        "level": "other",
-        "explanation": "bounded contract checking (class B): the delta function of watch_membership_changes for one transition from an arbitrary previous snapshot "
-                       "(3 ids x 2 addresses x 2 DCs) plus the Verus fold lemma (unbounded) where registered",
-        "assumptions": [],
     },
     "C18": {
         "obligations": ["gr_binding_preserved"],
